@@ -464,3 +464,22 @@ def install():
 
 
 install()
+
+
+# ---------------------------------------------------------------- registry histories (C11 / C14)
+
+def unregister(cls, ns):
+    """ns: '' for the global namespace"""
+    optree.unregister_pytree_node(cls, namespace=GLOBAL if ns == '' else ns)
+
+
+def register_again(cls, ns):
+    fl, un, pet = MODEL_REGISTRY[(ns, cls)]
+    if fl is _cls_flatten:
+        optree.register_pytree_node_class(cls, namespace=GLOBAL if ns == '' else ns,
+                                          path_entry_type=None if pet is optree.AutoEntry else pet)
+    else:
+        optree.register_pytree_node(cls, fl, un, path_entry_type=pet, namespace=GLOBAL if ns == '' else ns)
+
+
+VICTIMS = {'CG': (CG, ''), 'CN': (CN, NS), 'CM': (CM, NS), 'CU': (CU, '')}
